@@ -556,8 +556,8 @@ func (r *pairRun) atEnd(stepCap bool) {
 		if pendingData && !errored(s, p.sd) {
 			key := "stall"
 			finOnly := s.SndClosed && s.SndUna == s.SndNxt && s.SndNxtList-s.SndNxt == 1 && s.SndQueueLen == 0
-			if s.SndWnd == 0 && !finOnly {
-				key = "stall-zero-window" // D6: no persist timer (data waits for a window that never reopens)
+			if s.SndWnd == 0 && !finOnly && r.dropped > 0 {
+				key = "stall-zero-window" // D6: no persist timer (a window update was lost and nothing probes the closed window)
 			} else if finOnly {
 				key = "stall-fin-withheld" // everything is acknowledged, only the FIN is left: it needs no window
 			}
